@@ -44,7 +44,10 @@ def tlc_scenarios(work, n, seed_, kind):
               "MaxAppends": 2, "VaaNames": "{}", "GenDepth": 8}
     else:
         ov = {"KindsR1": '{"push"}', "KindsR2": '{"push", "lookup"}', "MaxCallsR1": 4, "MaxCallsR2": 3, "MaxAppends": 0,
-              "VaaNames": '{"A", "B", "C", "D", "E", "F", "G"}', "GenDepth": 8}
+              "VaaNames": '{"A", "B", "C", "D", "E", "F", "G", "H", "I", "J"}', "GenDepth": 8}
+    if kind == "push-unknown":   # the VAAs that name an index the explorer does not hold (yet), every signer population
+        ov = {"KindsR1": '{"push"}', "KindsR2": '{"push"}', "MaxCallsR1": 4, "MaxCallsR2": 3, "MaxAppends": 0,
+              "VaaNames": '{"A", "F", "G", "H", "I", "J"}', "GenDepth": 7}
     name = _gen_cfg(work, "Gen_Explorer_%s_%d.cfg" % (kind, seed_), ov)
     r = vlib.tlc(work, "Gen_Explorer", name, workers=1,
                  args=["-simulate", "num=%d" % (n * 2), "-depth", "200", "-seed", str(seed_)], timeout=300)
@@ -57,7 +60,8 @@ def tlc_scenarios(work, n, seed_, kind):
         if k in seen:
             continue
         seen.add(k)
-        res.append({"init": {"chain": MC_CHAIN, "n0": 1, "top": 0, "qcap": 1, "up": True}, "steps": h, "src": "tlc-" + kind})
+        res.append({"init": {"chain": MC_CHAIN, "n0": 1, "top": 0, "qcap": 1 if kind != "push-unknown" else 3, "up": True},
+                    "steps": h, "src": "tlc-" + kind})
         if len(res) >= n:
             break
     return res
@@ -323,9 +327,81 @@ def held_scenarios(seed_, n, kind):
     return [gen_held(rnd, kind) for _ in range(n)]
 
 
+def gen_push_unknown(r):
+    """VAAs naming a guardian-set index the explorer does not hold, signed by every interesting key population (all keys
+    / a quorum of the explorer's current set, a quorum of an older set it holds, the named set's own keys, outsiders),
+    against every outcome of the chain lookup: the node is unreachable (closed port), the node answers the set call
+    with an error, the index is not on chain, the node returns the set.  Property: queued only if the VAA verifies
+    against the set with the index it names, which must then be known (fetched)."""
+    k = r.choice([3, 4, 6])
+    while True:
+        chain = universe(r, k)
+        if all(chain[j] != chain[j + 1] for j in range(k - 1)):
+            break
+    n0 = r.randrange(1, k)                   # the explorer holds 0..cur
+    cur = n0 - 1
+    top = r.randrange(cur, k - 1)            # at least one index of the universe is not on chain yet
+    up = r.random() < 0.65
+    qcap = 4
+    steps = []
+    nid = [0]
+
+    def fresh():
+        nid[0] += 1
+        return "u%d" % nid[0]
+    for _ in range(r.randrange(3, 8)):
+        where = r.choice(["not-on-chain", "not-on-chain", "on-chain-unknown", "on-chain-unknown", "beyond-universe"])
+        if where == "on-chain-unknown" and top > cur:
+            idx = r.randrange(cur + 1, top + 1)
+        elif where == "beyond-universe":
+            idx = k + r.choice([0, 1, 5])
+        else:
+            idx = r.randrange(top + 1, k)
+        pop = r.choice(["current-all", "current-quorum", "older-quorum", "named-set", "outsiders"])
+        if pop == "older-quorum" and cur == 0:
+            pop = "current-quorum"
+        if pop == "named-set" and idx >= k:
+            pop = "current-all"
+        if pop == "current-all":
+            keys = chain[cur]
+            idxs = list(range(len(keys)))
+        elif pop == "current-quorum":
+            keys = chain[cur]
+            idxs = sorted(r.sample(range(len(keys)), q(len(keys))))
+        elif pop == "older-quorum":
+            keys = chain[r.randrange(0, cur)]
+            idxs = sorted(r.sample(range(len(keys)), q(len(keys))))
+        elif pop == "named-set":
+            keys = chain[idx]
+            idxs = sorted(r.sample(range(len(keys)), q(len(keys))))
+        else:
+            keys = ["x%d" % (i + 1) for i in range(len(chain[cur]))]
+            idxs = list(range(len(keys)))
+        rpc = "fail" if (up and r.random() < 0.35) else ""
+        outcome = ("node-unreachable" if not up else "node-errors" if rpc else "index-not-on-chain" if idx > top else "node-returns-the-set")
+        v = mk_vaa(fresh(), idx, keys, idxs, "unknown-index/%s/%s" % (pop, outcome))
+        a = {"v": v}
+        if rpc:
+            a["rpc"] = rpc
+        steps.append({"ev": "Push", "a": a})
+        if outcome == "node-returns-the-set":
+            cur = max(cur, idx)
+        if r.random() < 0.3:
+            # a copy of the same VAA once more (a failed or refused one must not have been marked as seen)
+            steps.append({"ev": "Push", "a": {"v": dict(v, cls=v["cls"] + "/again")}})
+            if up and idx <= top:
+                cur = max(cur, idx)
+        if r.random() < 0.25:
+            kc = chain[cur]
+            steps.append({"ev": "Push", "a": {"v": mk_vaa(fresh(), cur, kc, sorted(r.sample(range(len(kc)), q(len(kc)))), "valid")}})
+        if r.random() < 0.2:
+            steps.append({"ev": "Drain", "a": {}})
+    return {"init": {"chain": chain, "n0": n0, "top": top, "qcap": qcap, "up": up}, "steps": steps, "src": "gen-push-unknown"}
+
+
 def gen_scenarios(seed_, n, kind):
     rnd = random.Random("explorer-%s-%d" % (kind, seed_))
-    f = gen_sets if kind == "sets" else gen_push
+    f = {"sets": gen_sets, "push": gen_push, "push-unknown": gen_push_unknown}[kind]
     return [f(rnd) for _ in range(n)]
 
 
